@@ -654,7 +654,9 @@ func (l *Listener) DialPipe() (*Conn, *Pipe, error) {
 	}
 	o := PipeOpts{NoCut: true}
 	if od != nil {
+		l.mu.Lock() // OnDial callbacks are serialised (they usually share a PRNG)
 		o = od(idx)
+		l.mu.Unlock()
 	}
 	p := l.n.NewPipe(o)
 	p.B.laddr = l.addr
